@@ -9,11 +9,17 @@
 // `hook::run "$@"`.  BINDING_CONTEXT_PATH points to a JSON array rendered by the real
 // pkg/hook/binding_context (ConvertBindingContextList "v1") from the generated contexts.
 // bash and jq are the interpreter: nothing of the framework is re-implemented here.
+//
+// The text the script's __config__ writes is an input of the case too (Input.Config: any
+// bytes, in several pieces, written by cat / here-document / printf / echo); the complete
+// stdout of every run is recorded (Obs.Out, run-length form, lossless) and compared by Coq,
+// byte for byte, with the model's - `hook::run --config` prints the configuration.
 package c19
 
 import (
 	"bytes"
 	"context"
+	"encoding/hex"
 	"encoding/json"
 	"fmt"
 	"os"
@@ -24,6 +30,7 @@ import (
 	"strconv"
 	"strings"
 	"time"
+	"unicode/utf8"
 
 	bctx "github.com/flant/shell-operator/pkg/hook/binding_context"
 	htypes "github.com/flant/shell-operator/pkg/hook/types"
@@ -83,11 +90,54 @@ type Handler struct {
 	Arms    []Arm  `json:"arms,omitempty"`
 }
 
+// Text is a byte string.  In JSON it is a string when it is valid UTF-8 and {"hex": "..."}
+// otherwise, so that replay files are readable and every byte survives.
+type Text string
+
+func (t Text) MarshalJSON() ([]byte, error) {
+	if utf8.ValidString(string(t)) {
+		return json.Marshal(string(t))
+	}
+	return json.Marshal(map[string]string{"hex": hex.EncodeToString([]byte(t))})
+}
+
+func (t *Text) UnmarshalJSON(b []byte) error {
+	var s string
+	if err := json.Unmarshal(b, &s); err == nil {
+		*t = Text(s)
+		return nil
+	}
+	var m struct {
+		Hex string `json:"hex"`
+	}
+	if err := json.Unmarshal(b, &m); err != nil {
+		return err
+	}
+	x, err := hex.DecodeString(m.Hex)
+	if err != nil {
+		return err
+	}
+	*t = Text(x)
+	return nil
+}
+
+// Chunk is a piece of the text the generated __config__ writes to its stdout: Text, Rep times
+// (0 = once), written the way Form says (see chunkWriter; a form that cannot express the bytes
+// falls back to form 0).  The same type carries the complete stdout of a run in run-length form.
+type Chunk struct {
+	Text Text `json:"text"`
+	Rep  int  `json:"rep,omitempty"`
+	Form int  `json:"form,omitempty"`
+}
+
 type Input struct {
 	Exotic  bool      `json:"exotic,omitempty"`
 	Args    []string  `json:"args,omitempty"`
 	Ctxs    []Ctx     `json:"ctxs"`
 	Defined []Handler `json:"defined"`
+	// Config: what __config__ (when the script defines it) writes to its stdout, chunk after
+	// chunk, before it runs its commands.  Absent = the one line VERIF-CONFIG-TEXT.
+	Config *[]Chunk `json:"config,omitempty"`
 }
 
 type Entry struct {
@@ -100,13 +150,148 @@ type Obs struct {
 	Trace   []Entry    `json:"trace"`
 	Steps   [][][2]int `json:"steps,omitempty"` // per invocation: marks (position, inner position) of the commands that started
 	Status  int        `json:"status"`
-	Printed bool       `json:"printed"`
-	Stdout  string     `json:"stdout,omitempty"`
+	Printed bool       `json:"printed"`           // __config__ was invoked and stdout is, byte for byte, what it wrote
+	Stdout  string     `json:"stdout,omitempty"`  // the first bytes of stdout, quoted (for the reader)
+	Out     []Chunk    `json:"out,omitempty"`     // the complete stdout in run-length form (compared by Coq)
+	OutLen  int        `json:"stdout_len"`
 	Stderr  string     `json:"stderr_tail,omitempty"`
 	Err     string     `json:"err,omitempty"`
 }
 
 const configText = "VERIF-CONFIG-TEXT"
+
+const maxConfigBytes = 1 << 20 // of one chunk after repetition
+
+// forms of writing a chunk
+const (
+	formFile   = 0 // cat of a file that holds the bytes (any bytes)
+	formHere   = 1 // cat <<'VERIF_EOF' ... (the bytes end with a newline, no NUL, no delimiter line)
+	formPrintf = 2 // printf '%s' '...' (no NUL)
+	formEcho   = 3 // echo '...' (the bytes end with a newline, no NUL, the rest is not an option of echo)
+	nCfgForms  = 4
+)
+
+var echoOption = regexp.MustCompile(`^-[neE]+$`)
+
+func (c Chunk) bytes() string {
+	n := c.Rep
+	if n < 1 {
+		n = 1
+	}
+	return strings.Repeat(string(c.Text), n)
+}
+
+// effForm: the form actually used for the bytes of a chunk.
+func effForm(b string, form int) int {
+	inline := !strings.Contains(b, "\x00") && len(b) <= 48<<10
+	switch form {
+	case formHere:
+		if inline && strings.HasSuffix(b, "\n") && !strings.HasPrefix(b, "VERIF_EOF\n") && !strings.Contains(b, "\nVERIF_EOF\n") {
+			return formHere
+		}
+	case formPrintf:
+		if inline {
+			return formPrintf
+		}
+	case formEcho:
+		if inline && strings.HasSuffix(b, "\n") && !echoOption.MatchString(b[:len(b)-1]) {
+			return formEcho
+		}
+	}
+	return formFile
+}
+
+func shq(s string) string { return "'" + strings.ReplaceAll(s, "'", `'\''`) + "'" }
+
+// chunkWriter: the command of __config__ that writes chunk number i.
+func chunkWriter(i int, c Chunk) string {
+	b := c.bytes()
+	switch c.Form {
+	case formHere:
+		return "cat <<'VERIF_EOF'\n" + b + "VERIF_EOF"
+	case formPrintf:
+		return "printf '%s' " + shq(b)
+	case formEcho:
+		return "echo " + shq(b[:len(b)-1])
+	}
+	return fmt.Sprintf("cat \"$VERIF_CFG.%d\"", i)
+}
+
+// configOf: the chunks as Script, Run and Render read them (normalised).
+func configOf(in Input) []Chunk {
+	if in.Config == nil {
+		return []Chunk{{Text: configText + "\n", Rep: 1, Form: formEcho}}
+	}
+	out := make([]Chunk, 0, len(*in.Config))
+	for _, c := range *in.Config {
+		if c.Rep < 1 {
+			c.Rep = 1
+		}
+		if len(c.Text) > maxConfigBytes {
+			c.Text = c.Text[:maxConfigBytes]
+		}
+		if len(c.Text)*c.Rep > maxConfigBytes {
+			c.Rep = maxConfigBytes / len(c.Text)
+		}
+		c.Form = effForm(c.bytes(), c.Form)
+		out = append(out, c)
+	}
+	return out
+}
+
+// ConfigText: every byte the generated __config__ writes.
+func ConfigText(in Input) string {
+	var b strings.Builder
+	for _, c := range configOf(in) {
+		b.WriteString(c.bytes())
+	}
+	return b.String()
+}
+
+// encodeRuns: a byte string in run-length form - periodic stretches of at least 512 bytes
+// (period up to 64) become one chunk, the rest literal chunks.  Lossless (checked by the caller).
+func encodeRuns(s string) []Chunk {
+	var out []Chunk
+	lit := 0 // start of the pending literal
+	flush := func(to int) {
+		if to > lit {
+			out = append(out, Chunk{Text: Text(s[lit:to]), Rep: 1})
+		}
+	}
+	p := 0
+	for p < len(s) {
+		bestL, bestK := 0, 0
+		if len(s)-p >= 512 {
+			for l := 1; l <= 64 && p+2*l <= len(s); l++ {
+				k := 1
+				for p+(k+1)*l <= len(s) && s[p+k*l:p+(k+1)*l] == s[p:p+l] {
+					k++
+				}
+				if k >= 2 && k*l >= 512 && k*l > bestK*bestL {
+					bestL, bestK = l, k
+				}
+			}
+		}
+		if bestK > 0 {
+			flush(p)
+			out = append(out, Chunk{Text: Text(s[p : p+bestL]), Rep: bestK})
+			p += bestK * bestL
+			lit = p
+			continue
+		}
+		p++
+	}
+	flush(len(s))
+	return out
+}
+
+func decodeRuns(cs []Chunk) string {
+	var b strings.Builder
+	for _, c := range cs {
+		b.WriteString(c.bytes())
+	}
+	return b.String()
+}
 
 var safeName = regexp.MustCompile(`^[A-Za-z0-9_:./-]+$`)
 
@@ -256,6 +441,8 @@ func normBody(b []Cmd) []Cmd {
 // norm: the input as Script and Render read it.
 func norm(in Input) Input {
 	out := in
+	cfg := configOf(in)
+	out.Config = &cfg
 	out.Defined = nil
 	for _, h := range in.Defined {
 		n := Handler{Name: h.Name, Falloff: h.Falloff, Body: normBody(h.Body)}
@@ -412,7 +599,9 @@ func Script(in Input) string {
 		var f, helpers strings.Builder
 		fmt.Fprintf(&f, "function %s() {\n  __verif_h '%s'\n", h.Name, h.Name)
 		if h.Name == "__config__" {
-			fmt.Fprintf(&f, "  echo '%s'\n", configText)
+			for i, c := range *in.Config {
+				f.WriteString(chunkWriter(i, c) + "\n")
+			}
 		}
 		// arms: the indices with their own commands or a non-zero final status
 		arms := map[int][]Cmd{}
@@ -483,33 +672,59 @@ func Run(in Input) Obs {
 		return Obs{Err: err.Error(), Status: -1}
 	}
 	trace := filepath.Join(dir, "trace")
-	for name, content := range map[string][]byte{"lib.sh": lib, "ctx.json": cj, "hook.sh": []byte(Script(in))} {
+	files := map[string][]byte{"lib.sh": lib, "ctx.json": cj, "hook.sh": []byte(Script(in))}
+	for i, c := range configOf(in) {
+		if c.Form == formFile {
+			files[fmt.Sprintf("config.%d", i)] = []byte(c.bytes())
+		}
+	}
+	for name, content := range files {
 		if err := os.WriteFile(filepath.Join(dir, name), content, 0o644); err != nil {
 			return Obs{Err: err.Error(), Status: -1}
 		}
 	}
-	ctx, cancel := context.WithTimeout(context.Background(), 30*time.Second)
-	defer cancel()
-	cmd := exec.CommandContext(ctx, "bash", append([]string{filepath.Join(dir, "hook.sh")}, in.Args...)...)
-	cmd.Dir = dir
-	cmd.Env = []string{"PATH=" + os.Getenv("PATH"), "LC_ALL=C", "VERIF_LIB=" + filepath.Join(dir, "lib.sh"),
-		"VERIF_TRACE=" + trace, "BINDING_CONTEXT_PATH=" + filepath.Join(dir, "ctx.json")}
+	// a run takes some 50 ms; on a machine under heavy load a run that exceeds the time limit is
+	// repeated once with a generous limit before it counts as a hang (no verdict from timing)
 	var so, se bytes.Buffer
-	cmd.Stdout, cmd.Stderr = &so, &se
-	err = cmd.Run()
 	o := Obs{}
-	if err != nil {
-		if ee, ok := err.(*exec.ExitError); ok && ee.ExitCode() >= 0 {
-			o.Status = ee.ExitCode()
-		} else {
-			o.Status = -1
-			o.Err = err.Error()
+	for attempt, limit := range []time.Duration{30 * time.Second, 100 * time.Second} {
+		so.Reset()
+		se.Reset()
+		o = Obs{}
+		if attempt > 0 {
+			os.Remove(trace)
+		}
+		ctx, cancel := context.WithTimeout(context.Background(), limit)
+		cmd := exec.CommandContext(ctx, "bash", append([]string{filepath.Join(dir, "hook.sh")}, in.Args...)...)
+		cmd.Dir = dir
+		cmd.Env = []string{"PATH=" + os.Getenv("PATH"), "LC_ALL=C", "VERIF_LIB=" + filepath.Join(dir, "lib.sh"),
+			"VERIF_TRACE=" + trace, "VERIF_CFG=" + filepath.Join(dir, "config"), "BINDING_CONTEXT_PATH=" + filepath.Join(dir, "ctx.json")}
+		cmd.Stdout, cmd.Stderr = &so, &se
+		err = cmd.Run()
+		timedOut := ctx.Err() != nil
+		cancel()
+		if err != nil {
+			if ee, ok := err.(*exec.ExitError); ok && ee.ExitCode() >= 0 {
+				o.Status = ee.ExitCode()
+			} else {
+				o.Status = -1
+				o.Err = err.Error()
+			}
+		}
+		if !timedOut {
+			break
 		}
 	}
-	o.Stdout = so.String()
-	o.Printed = o.Stdout == configText+"\n"
-	if len(o.Stdout) > 300 {
-		o.Stdout = o.Stdout[:300]
+	raw := so.String()
+	o.OutLen = len(raw)
+	o.Out = encodeRuns(raw)
+	if decodeRuns(o.Out) != raw { // (cannot happen) never let an encoding fault pass for an observation
+		o.Out = []Chunk{{Text: Text(raw), Rep: 1}}
+	}
+	if len(raw) > 300 {
+		o.Stdout = strconv.Quote(raw[:300]) + "..."
+	} else if raw != "" {
+		o.Stdout = strconv.Quote(raw)
 	}
 	st := se.String()
 	if len(st) > 600 {
@@ -541,6 +756,12 @@ func Run(in Input) Obs {
 			}
 			o.Trace = append(o.Trace, Entry{Name: f[0], Index: idx, Binding: f[2]})
 			o.Steps = append(o.Steps, [][2]int{})
+		}
+	}
+	// "the configuration was printed": __config__ ran and stdout is exactly what it wrote
+	for _, e := range o.Trace {
+		if e.Name == "__config__" {
+			o.Printed = raw == ConfigText(in)
 		}
 	}
 	return o
@@ -608,6 +829,7 @@ func Render(in Input, obs *Obs, crash string) core.Case {
 		status = 9999 // the harness could not run or read the case: never equal to a model status
 	}
 	kb, _ := json.Marshal(in)
+	given := in // (Config absent = the default text)
 	in = norm(in)
 	ctxs, readable := coqCtxs(in)
 	exotic := in.Exotic || !readable
@@ -620,17 +842,21 @@ func Render(in Input, obs *Obs, crash string) core.Case {
 		steps = append(steps, nil)
 	}
 	c := core.Case{}
-	c.Coq = fmt.Sprintf("mkCase %s %s\n   %s\n   %s\n   (mkObsB (mkObs %s %d %s) %s)", core.CoqBool(exotic),
-		core.CoqList(in.Args, core.CoqBytes), ctxs, defs,
+	c.Coq = fmt.Sprintf("mkCase %s %s\n   %s\n   %s\n   %s\n   (mkObsB (mkObs %s %d %s) %s)\n   %s", core.CoqBool(exotic),
+		core.CoqList(in.Args, core.CoqBytes), ctxs, defs, coqChunks(*in.Config),
 		core.CoqList(o.Trace, coqEntry), status, core.CoqBool(o.Printed),
 		core.CoqList(steps, func(ss [][2]int) string {
 			return core.CoqList(ss, func(m [2]int) string { return fmt.Sprintf("(%d, %d)", m[0], m[1]) })
-		}))
+		}), coqChunks(o.Out))
 	c.JSON = o
 	c.Key = string(kb)
 	config := len(in.Args) > 0 && in.Args[0] == "--config"
 	if config {
 		c.Tags = append(c.Tags, "mode:config")
+		c.Tags = append(c.Tags, cfgTags(given)...)
+		if o.Printed {
+			c.Tags = append(c.Tags, "cfg:printed-verbatim")
+		}
 	} else {
 		c.Tags = append(c.Tags, "mode:run", fmt.Sprintf("nctx:%d", len(in.Ctxs)))
 		for _, x := range in.Ctxs {
@@ -661,6 +887,73 @@ func Render(in Input, obs *Obs, crash string) core.Case {
 			"names_as_atoms_would_call": exp, "differs_from_atoms_reading": !sameCalls(exp, o.Trace)})
 	}
 	return c
+}
+
+func coqChunks(cs []Chunk) string {
+	return core.CoqList(cs, func(c Chunk) string {
+		n := c.Rep
+		if n < 1 {
+			n = 1
+		}
+		return fmt.Sprintf("(%d, %s)", n, core.CoqBytes(string(c.Text)))
+	})
+}
+
+var cfgFormNames = []string{"file", "here-document", "printf", "echo"}
+
+// cfgTags describes the text of __config__ of a --config case.
+func cfgTags(in Input) []string {
+	if !hasHandler(in, "__config__") {
+		return []string{"cfg:undefined"}
+	}
+	if in.Config == nil {
+		return []string{"cfg:default-text"}
+	}
+	cs := configOf(in)
+	t := ConfigText(in)
+	set := map[string]bool{fmt.Sprintf("cfg:chunks:%d", len(cs)): true}
+	for _, c := range cs {
+		set["cfg:form:"+cfgFormNames[c.Form]] = true
+	}
+	has := func(tag string, b bool) {
+		if b {
+			set["cfg:"+tag] = true
+		}
+	}
+	has("empty", t == "")
+	has("leading-dash", strings.HasPrefix(t, "-"))
+	has("document-marker", strings.HasPrefix(t, "---"))
+	has("percent", strings.Contains(t, "%"))
+	has("backslash", strings.Contains(t, "\\"))
+	has("escaped-quote", strings.Contains(t, "\\\""))
+	has("double-backslash", strings.Contains(t, "\\\\"))
+	has("no-final-newline", t != "" && !strings.HasSuffix(t, "\n"))
+	has("one-final-newline", strings.HasSuffix(t, "\n") && !strings.HasSuffix(t, "\n\n"))
+	has("several-final-newlines", strings.HasSuffix(t, "\n\n"))
+	has("several-lines", strings.Count(t, "\n") >= 2)
+	has("nul", strings.Contains(t, "\x00"))
+	has("non-utf8", !utf8.ValidString(t))
+	has("carriage-return", strings.Contains(t, "\r"))
+	has("dollar-or-backquote", strings.ContainsAny(t, "$`"))
+	has("glob-characters", strings.ContainsAny(t, "*?["))
+	has("leading-or-trailing-blank", strings.HasPrefix(t, " ") || strings.HasPrefix(t, "\t") || strings.HasSuffix(t, " ") || strings.HasSuffix(t, " \n"))
+	has("json", strings.HasPrefix(t, "{"))
+	switch {
+	case len(t) > 128<<10:
+		set["cfg:size:>128KiB"] = true
+	case len(t) > 64<<10:
+		set["cfg:size:>64KiB"] = true
+	case len(t) >= 4096:
+		set["cfg:size:>=4KiB"] = true
+	default:
+		set["cfg:size:<4KiB"] = true
+	}
+	var r []string
+	for k := range set {
+		r = append(r, k)
+	}
+	sort.Strings(r)
+	return r
 }
 
 func coqCmd(c Cmd) string {
@@ -1326,6 +1619,263 @@ func bodyInput(r *core.Rng) Input {
 	return in
 }
 
+
+// ---- the text of __config__ ----
+
+func lit(s string) []Chunk { return []Chunk{{Text: Text(s)}} }
+
+func configInput(cfg []Chunk, form int, st int) Input {
+	c := make([]Chunk, len(cfg))
+	for i := range cfg {
+		c[i] = cfg[i]
+		c[i].Form = (form + i) % nCfgForms
+	}
+	h := Handler{Name: "__config__"}
+	if st != 0 {
+		h.Status = []int{st}
+	}
+	return Input{Args: []string{"--config"}, Ctxs: []Ctx{}, Defined: []Handler{h}, Config: &c}
+}
+
+const yamlPlain = "configVersion: v1\nonStartup: 10\n"
+
+// configCatalogue: texts a __config__ may write, one feature each, small ones first: whole
+// configurations (YAML with and without the document marker, JSON whose jqFilter has escaped
+// quotes and backslashes, `%` in a jqFilter), then the lexical classes on their own - leading
+// dashes, `%` and printf-like formats, backslash sequences, ends of the text (no / one /
+// several final newlines, blanks, nothing at all), shell-significant characters, bytes that are
+// not text, lengths around the limits of pipes, pages and arguments, several writes.
+func configCatalogue() [][]Chunk {
+	ts := []string{
+		yamlPlain,
+		"---\n" + yamlPlain,
+		`{"configVersion":"v1","kubernetes":[{"name":"pods","kind":"Pod","jqFilter":".metadata.labels[\"app\"]"}]}` + "\n",
+		"configVersion: v1\nkubernetes:\n- name: pods\n  kind: Deployment\n  jqFilter: \".spec.replicas % 2\"\n",
+		"configVersion: v1\nkubernetes:\n- name: pods\n  kind: Pod\n  jqFilter: '.metadata.name | test(\"^web-\\\\d+$\")'\n",
+		"configVersion: v1\nschedule:\n- name: every-5\n  crontab: \"*/5 * * * *\"\n",
+		"# hook configuration\n" + yamlPlain,
+		"%YAML 1.2\n---\n" + yamlPlain,
+		"--- # document\n" + yamlPlain + "...\n",
+		"- a\n- b\n",
+		// leading dashes
+		"-", "--", "---", "-n\n", "-e\n", "-E\n", "-nx\n", "-v var\n", "-- x\n", "--help\n", "-\n",
+		// percent
+		"%", "%\n", "%%\n", "%s\n", "%d\n", "100%\n", "a % b\n", "%5.2f %q %b %c\n", "%(%F)T\n", "%n\n", "% d\n", "%*d\n",
+		// backslash sequences
+		"\\n", "\\n\n", "a\\nb\n", "a\\tb\n", "\\1\n", "\\0\n", "\\101\n", "\\x41\n", "\\u00e9\n", "\\c\n", "x\\cy\n", "\\e[0m\n", "\\\\\n", "\\\\\\\\\n", "\\\"\n", "\\'\n", "\\a\\b\\f\\r\\v\n", "a\\\nb\n", "\\", "x\\",
+		// the end of the text
+		"", "x", "x\n\n", "x\n\n\n", "\n", "\n\n", "\n\nx\n", " ", " \n", "x \n", "x  ", "  x\n", "\tx\n", "x\t\n", "x\n \n", "a: 1\nb: 2", "a: 1\n\nb: 2\n\n",
+		// shell-significant characters
+		"$HOME\n", "${PATH}\n", "$(id)\n", "`id`\n", "*\n", "? [a-z] ~ !\n", "a  b   c\n", "a\tb\n", "\"quoted\" 'single'\n", "a;b|c&d>e<f\n", "#x\n", "!!\n", "{a,b}\n", "$'\\n'\n", "$1 $@ $* $? $$\n",
+		// bytes that are not text
+		"a\r\nb\r\n", "x\r", "caf\xc3\xa9\n", "\xff\xfe\n", "\x80", "\x01\x02\x1b[0m\x7f\n", "a\x00b\n", "\x00", "\x00\n\x00",
+	}
+	var out [][]Chunk
+	for _, t := range ts {
+		out = append(out, lit(t))
+	}
+	line := "0123456789abcde\n"
+	out = append(out,
+		// several writes
+		[]Chunk{{Text: "---\n"}, {Text: yamlPlain}},
+		[]Chunk{{Text: "a"}, {Text: "b\n"}},
+		[]Chunk{{Text: "%"}, {Text: "s\n"}},
+		[]Chunk{{Text: "x\\"}, {Text: "n\n"}},
+		[]Chunk{{Text: "x\n"}, {Text: "\n"}, {Text: ""}},
+		[]Chunk{{Text: ""}, {Text: ""}},
+		[]Chunk{},
+		[]Chunk{{Text: "a: 1"}, {Text: "\n"}, {Text: "b: \"\\\"\"\n"}, {Text: "c: 100%"}},
+		// lengths: a page, a pipe buffer, an argument, beyond
+		[]Chunk{{Text: "x", Rep: 4095}, {Text: "\n"}},
+		[]Chunk{{Text: "x", Rep: 4096}},
+		[]Chunk{{Text: Text(line), Rep: 256}, {Text: "%\n"}},
+		[]Chunk{{Text: Text(line), Rep: 4096}},
+		[]Chunk{{Text: Text(line), Rep: 4096}, {Text: "x"}},
+		[]Chunk{{Text: "- name: \"b\\\\d\"\n", Rep: 8192}},
+		[]Chunk{{Text: Text(line), Rep: 8192}, {Text: "\n\n"}},
+		[]Chunk{{Text: "y", Rep: 131073}},
+		[]Chunk{{Text: "---\n"}, {Text: Text(line), Rep: 20000}},
+		[]Chunk{{Text: "\n", Rep: 1000}},
+		[]Chunk{{Text: "%s\\n", Rep: 300}},
+	)
+	return out
+}
+
+// configSystematic: every text of the catalogue with a succeeding __config__ (the way of
+// writing rotates through the forms), and every eighth one also with a failing __config__.
+func configSystematic() []Input {
+	var ins []Input
+	for n, cfg := range configCatalogue() {
+		ins = append(ins, configInput(cfg, n, 0))
+	}
+	for n, cfg := range configCatalogue() {
+		if n%8 == 1 {
+			in := configInput(cfg, n+1, failCodes[(n/8)%len(failCodes)])
+			if n%16 == 1 { // fails by a command of its body, after the text is out
+				in.Defined[0].Status, in.Defined[0].Falloff = nil, true
+				in.Defined[0].Body = []Cmd{plain(0, 3), plain(failCodes[(n/8)%len(failCodes)], 0)}
+			}
+			ins = append(ins, in)
+		}
+	}
+	return ins
+}
+
+var jqFilters = []string{
+	`.metadata.labels`, `.metadata.labels["app"]`, `.spec.replicas % 2`, `.metadata.name | test("^web-\\d+$")`,
+	`.data | to_entries | map("\(.key)=\(.value)") | join("\n")`, `.status.phase // "Unknown"`, `"100%"`,
+	`.metadata.annotations["a/b"] | @base64d`, `. as $x | $x.spec`, `.spec.containers[] | select(.image | startswith("nginx:"))`,
+	`"%s %d"`, `.metadata.name | sub("\\."; "-")`, `"tab\there"`, `.a | tostring + "\\n"`, "`x`", `'single'`, `-1`, `.x * 100 | tostring + "%"`,
+	`{name: .metadata.name, ok: (.status.ready == true)}`, `.spec | tojson | @sh`, `"\u00e9\ud83d\ude00"`, `.metadata.labels | keys[] | select(test("^app\\.kubernetes\\.io/"))`,
+}
+
+var spice = []string{"%", "%s", "%%", "%d", "\\n", "\\t", "\\\\", "\\1", "\\0", "\\c", "\\x41", "\\\"", "--", "-", "$x", "`", "\\", "'", "\"", "\n", " ", "\t", "*", "\r", "#", "\xc3\xa9", "\x01"}
+
+const randomAlphabet = "%\\-n \n\"'$sdc01x{}:`*\t"
+
+func yamlSingle(s string) string { return "'" + strings.ReplaceAll(s, "'", "''") + "'" }
+func yamlDouble(s string) string {
+	b, _ := json.Marshal(s)
+	return string(b)
+}
+
+// randomConfigText: a hook configuration from the grammar
+//
+//	text    := leading document trailing | bytes
+//	document:= YAML (jqFilter plain / single-quoted / double-quoted / block scalar) | JSON
+//	leading := "" | "---\n" | "--- \n" | "# comment\n" | "\n" | "%YAML 1.2\n---\n"
+//	trailing:= "" (one final newline) | no final newline | "\n" | "\n\n" | " \n" | "...\n"
+//
+// with, sometimes, a few `spice` tokens spliced in at random places; `bytes` is a short string
+// over an alphabet of the characters printf, echo and the shell give a meaning to.
+func randomConfigText(r *core.Rng) string {
+	if r.Chance(20) {
+		n := r.Intn(17)
+		b := make([]byte, n)
+		for i := range b {
+			b[i] = randomAlphabet[r.Intn(len(randomAlphabet))]
+		}
+		return string(b)
+	}
+	name := safeBindings[r.Intn(len(safeBindings))]
+	nb := 1 + r.Intn(3)
+	var doc string
+	if r.Chance(30) {
+		var ks []map[string]any
+		for i := 0; i < nb; i++ {
+			ks = append(ks, map[string]any{"name": fmt.Sprintf("%s-%d", name, i), "kind": "Pod", "jqFilter": jqFilters[r.Intn(len(jqFilters))]})
+		}
+		m := map[string]any{"configVersion": "v1", "kubernetes": ks}
+		var b []byte
+		if r.Bool() {
+			b, _ = json.Marshal(m)
+		} else {
+			b, _ = json.MarshalIndent(m, "", "  ")
+		}
+		doc = string(b) + "\n"
+	} else {
+		var b strings.Builder
+		b.WriteString("configVersion: v1\n")
+		if r.Chance(30) {
+			fmt.Fprintf(&b, "onStartup: %d\n", r.Intn(100))
+		}
+		if r.Chance(30) {
+			b.WriteString("schedule:\n- name: cron\n  crontab: \"*/5 * * * *\"\n")
+		}
+		b.WriteString("kubernetes:\n")
+		for i := 0; i < nb; i++ {
+			f := jqFilters[r.Intn(len(jqFilters))]
+			fmt.Fprintf(&b, "- name: %s-%d\n  kind: Pod\n", name, i)
+			switch r.Intn(4) {
+			case 0:
+				b.WriteString("  jqFilter: " + yamlSingle(f) + "\n")
+			case 1:
+				b.WriteString("  jqFilter: " + yamlDouble(f) + "\n")
+			case 2:
+				b.WriteString("  jqFilter: |\n    " + strings.ReplaceAll(f, "\n", "\n    ") + "\n")
+			default:
+				b.WriteString("  jqFilter: >-\n    " + strings.ReplaceAll(f, "\n", "\n    ") + "\n")
+			}
+		}
+		doc = b.String()
+	}
+	lead := []string{"", "", "", "---\n", "---\n", "--- \n", "# comment\n", "\n", "%YAML 1.2\n---\n"}[r.Intn(9)]
+	if strings.HasPrefix(doc, "{") && r.Chance(70) {
+		lead = ""
+	}
+	t := lead + doc
+	switch r.Intn(10) {
+	case 0, 1:
+		t = strings.TrimSuffix(t, "\n")
+	case 2:
+		t += "\n"
+	case 3:
+		t += "\n\n"
+	case 4:
+		t = strings.TrimSuffix(t, "\n") + " \n"
+	case 5:
+		t += "...\n"
+	}
+	if r.Chance(30) {
+		for k := 1 + r.Intn(3); k > 0; k-- {
+			at := r.Intn(len(t) + 1)
+			t = t[:at] + spice[r.Intn(len(spice))] + t[at:]
+		}
+	}
+	return t
+}
+
+// configRandomInput: --config with a text from the grammar, written in 1-4 pieces in random
+// forms; __config__ succeeds in 4 of 5 cases (otherwise: an explicit return status, or a command
+// of its body); contexts, other handlers and further arguments are present at random (they must
+// not matter).
+func configRandomInput(r *core.Rng) Input {
+	t := randomConfigText(r)
+	var cfg []Chunk
+	for k := r.Intn(4); k > 0 && len(t) > 0; k-- {
+		at := r.Intn(len(t) + 1)
+		cfg = append(cfg, Chunk{Text: Text(t[:at]), Form: r.Intn(nCfgForms)})
+		t = t[at:]
+	}
+	cfg = append(cfg, Chunk{Text: Text(t), Form: r.Intn(nCfgForms)})
+	if r.Chance(4) {
+		cfg = append(cfg, Chunk{Text: Text(spice[r.Intn(len(spice))]), Rep: []int{4096, 70000, 140000}[r.Intn(3)], Form: r.Intn(nCfgForms)})
+	}
+	in := Input{Args: []string{"--config"}, Ctxs: []Ctx{}, Config: &cfg}
+	h := Handler{Name: "__config__"}
+	switch k := r.Intn(100); {
+	case k < 8:
+		h.Status = []int{failCodes[r.Intn(len(failCodes))]}
+	case k < 20:
+		h.Body = randomBody(r, 40)
+		h.Falloff = r.Bool()
+	case k < 35:
+		h.Body = randomBody(r, 0)
+		h.Falloff = r.Bool()
+	}
+	in.Defined = []Handler{h}
+	if r.Chance(25) {
+		in.Ctxs = append(in.Ctxs, randomCtx(r, 0))
+		in.Defined = append(in.Defined, Handler{Name: "__main__"})
+		if cs := candNames(in.Ctxs[0]); len(cs) > 0 && safeName.MatchString(cs[0]) && r.Bool() {
+			in.Defined = append([]Handler{{Name: cs[0], Status: []int{1}}}, in.Defined...)
+		}
+	}
+	if r.Chance(10) {
+		in.Args = append(in.Args, []string{"extra", "--config", "-n", ""}[r.Intn(4)])
+	}
+	if r.Chance(3) { // __config__ is not defined
+		kept := []Handler{}
+		for _, x := range in.Defined {
+			if x.Name != "__config__" {
+				kept = append(kept, x)
+			}
+		}
+		in.Defined = kept
+	}
+	return in
+}
+
 var exoticBindings = []string{"a b", "x y z", "a*", "?", "[ab]", "$HOME", "a;b", `a"b`, "a'b", "`id`", "-n", `a\b`, "", "café", "b1 __main__", "*"}
 
 var wordRe = regexp.MustCompile(`\S+`)
@@ -1443,12 +1993,15 @@ func Gen(r *core.Rng, tier string) ([]core.In[Input], bool) {
 	for _, in := range strictSystematic() {
 		ins = append(ins, core.In[Input]{Input: in, Stream: "strict-systematic"})
 	}
-	nRandom, nExotic, pairs, nBody, nLarge := 60, 24, false, 110, 10
+	for _, in := range configSystematic() {
+		ins = append(ins, core.In[Input]{Input: in, Stream: "config-systematic"})
+	}
+	nRandom, nExotic, pairs, nBody, nLarge, nConfig := 60, 24, false, 110, 10, 120
 	switch tier {
 	case "thorough":
-		nRandom, nExotic, pairs, nBody, nLarge = 2500, 300, true, 6000, 150
+		nRandom, nExotic, pairs, nBody, nLarge, nConfig = 2500, 300, true, 6000, 150, 5000
 	case "search":
-		nRandom, nExotic, pairs, nBody, nLarge = 600, 0, false, 1500, 60
+		nRandom, nExotic, pairs, nBody, nLarge, nConfig = 600, 0, false, 1500, 60, 1200
 	}
 	if pairs {
 		for _, in := range exhaustivePairs() {
@@ -1486,6 +2039,10 @@ func Gen(r *core.Rng, tier string) ([]core.In[Input], bool) {
 	for i := 0; i < nBody; i++ {
 		ins = append(ins, core.In[Input]{Input: bodyInput(rb), Stream: "random-body"})
 	}
+	rc := r.Fork()
+	for i := 0; i < nConfig; i++ {
+		ins = append(ins, core.In[Input]{Input: configRandomInput(rc), Stream: "config-random"})
+	}
 	return ins, false
 }
 
@@ -1510,6 +2067,7 @@ func Extra() map[string]any {
 		"context_file":              "rendered by the real pkg/hook/binding_context ConvertBindingContextList(v1)",
 		"exhaustive_scope":          "exhaustive-1: 13 context kinds x every subset of the kind's candidate handlers (+__main__) x exit status {0,1} x decoy handlers {absent,present}; exhaustive-2 (thorough): 13x13 ordered kind pairs under one binding x every subset of the union of candidates x {no failure, failure at index 0, failure at index 1}",
 		"exotic_stream":             "binding names outside the model (blanks, glob characters, quotes ...): never judged; Coq-evaluated counts are in trigger_cases (XMODEL = disagree with the model, XSPEC = fail the predicate P). trigger-F20 stream: typed contexts bound under the reserved name onStartup (corpus witness + ~5% of the random count), judged and excused by the recorded finding F20",
+		"config_text":               "the text the generated __config__ writes is an input (absent = the line VERIF-CONFIG-TEXT): a list of chunks (bytes x repetitions), each written by cat of a file / a quoted here-document / printf '%s' / echo, before the commands of its body; the COMPLETE stdout of every run (all modes) is recorded, run-length encoded losslessly and compared byte for byte with the model's (Coq expands both); config-systematic: a catalogue of ~130 texts (whole YAML/JSON configurations with document marker, escaped quotes, %, regex backslashes; leading dashes; % and printf formats; backslash sequences; no/one/several final newlines, blanks, empty; shell-significant characters; CR, non-UTF-8, control bytes, NUL; several writes; 4 KiB / 64 KiB / 128 KiB / 320 KiB) with a succeeding __config__, every eighth also with a failing one; config-random: texts from a grammar (leading x YAML|JSON document with jqFilters in every quoting style x trailing, spliced special tokens, or short strings over the alphabet of special characters), 1-4 writes in random forms, 1 in 5 with a failing __config__ (return status or a command of its body), contexts / other handlers / further arguments at random; tags cfg:*",
 		"exotic_cases":              len(exoticLog),
 		"exotic_differ_atoms_hint":  differ,
 		"exotic_for_triage_first30": log,
@@ -1519,6 +2077,6 @@ func Extra() map[string]any {
 var Driver = core.Driver[Input, Obs]{
 	Spec: core.Spec{Property: "C19", Imports: []string{"C19_Model", "C19_Spec", "C19_Corr"}, Corr: "C19_Corr",
 		Triggers: []string{"F20", "XMODEL", "XSPEC"}, ShrinkKey: "ctxs",
-		Rule: "one run of a generated bash hook (real shell_lib.sh + frameworks/shell, scripted handler functions, trace file) per case; streams: corpus, exhaustive-1, exhaustive-2 (thorough), strict-systematic and random-body (handlers with bodies of commands run under strict mode: a failing command / pipeline / unset variable / block in the middle followed by succeeding commands, tested positions, return/exit, no final return; the marks of the commands that started are compared), random (0-6 contexts, safe binding names, shuffled definitions, 8 exit codes, --config and other arguments), malformed (contexts the operator never produces; model only), trigger-F20 (typed binding named onStartup), exotic (triage only); non-trivial = dispatch over >=1 context with >=1 handler defined, or --config with __config__ defined; distinct = distinct input JSON"},
-	Gen: Gen, Run: Run, Render: Render, PerShard: 150, Workers: 12, CaseTimout: 40 * time.Second, Extra: Extra,
+		Rule: "one run of a generated bash hook (real shell_lib.sh + frameworks/shell, scripted handler functions, trace file) per case; streams: corpus, exhaustive-1, exhaustive-2 (thorough), strict-systematic and random-body (handlers with bodies of commands run under strict mode: a failing command / pipeline / unset variable / block in the middle followed by succeeding commands, tested positions, return/exit, no final return; the marks of the commands that started are compared), random (0-6 contexts, safe binding names, shuffled definitions, 8 exit codes, --config and other arguments), malformed (contexts the operator never produces; model only), trigger-F20 (typed binding named onStartup), exotic (triage only), config-systematic and config-random (--config with the TEXT of __config__ as an input: any bytes, written in several pieces and ways; the raw stdout of the run is compared byte for byte and judged by the clause printed-verbatim - the raw stdout is compared in every other stream too); non-trivial = dispatch over >=1 context with >=1 handler defined, or --config with __config__ defined; distinct = distinct input JSON"},
+	Gen: Gen, Run: Run, Render: Render, PerShard: 150, Workers: 12, CaseTimout: 150 * time.Second, Extra: Extra,
 }
